@@ -5,6 +5,7 @@ import (
 	"crypto/sha256"
 	"encoding/binary"
 	"fmt"
+	"sync"
 
 	"github.com/ontio/ontology-crypto/ec"
 	"github.com/ontio/ontology-crypto/keypair"
@@ -78,8 +79,25 @@ type world struct {
 	op   common.Address
 }
 
+// Sandboxes are recycled: creating one allocates large zeroed buffers (overlay memdb, in-memory leveldb), which dominated
+// the run time.  Nothing is ever committed to the leveldb store, so resetting cache and overlay gives an empty universe.
+var sbPool sync.Pool
+
+func getSandbox() *nativekit.Sandbox {
+	if v := sbPool.Get(); v != nil {
+		sb := v.(*nativekit.Sandbox)
+		sb.Cache.Reset()
+		sb.Overlay.Reset()
+		sb.Height, sb.Time = 1, 1000
+		return sb
+	}
+	return nativekit.New()
+}
+
+func putSandbox(sb *nativekit.Sandbox) { sbPool.Put(sb) }
+
 func newWorld(nvals int) *world {
-	w := &world{sb: nativekit.New()}
+	w := &world{sb: getSandbox()}
 	w.vals = detAccounts("polyval", nvals)
 	w.sb.SeedValidators(w.vals, 1)
 	w.op = nativekit.Operator(w.vals)
